@@ -915,7 +915,7 @@ func longPark(park time.Duration) (sig, what string, stall time.Duration, inconc
 // expiryEdge (inmem, real clock): waiters start within a few microseconds around the instant their record expires
 // (each on a key of its own, so nobody wakes anybody; nothing else touches the keys). Whether a waiter still
 // found the record alive or not, once the record has expired it has to come back with ErrNotExist by itself:
-// 25 ms after the expiry (healthy: about 1 ms; canary-guarded) the waiter table must be empty and every waiter must have returned.
+// 25 ms after the expiry (healthy: about 1 ms) - and, if not, a second later - the waiter table must be empty and every waiter must have returned.
 func expiryEdge(seed int64, rounds int) (sig, what string, stall time.Duration) {
 	var worst atomic.Int64
 	stop := make(chan struct{})
@@ -964,6 +964,13 @@ func expiryEdge(seed int64, rounds int) (sig, what string, stall time.Duration) 
 		time.Sleep(time.Until(at) + 25*time.Millisecond)
 		table := inmem.VerifWaiters(s)
 		returned := len(res)
+		if returned < n || len(table) != 0 {
+			// suspicious: on a loaded machine a spinning goroutine may simply not have run yet - look again a
+			// second later (a healthy waiter needs a millisecond, a forgotten one stays for its 5 s context)
+			time.Sleep(time.Second)
+			table = inmem.VerifWaiters(s)
+			returned = len(res)
+		}
 		cancel()
 		for i := 0; i < n; i++ {
 			if e := <-res; e != nil && !errors.Is(e, gerrors.ErrNotExist) && returned == n {
@@ -971,7 +978,7 @@ func expiryEdge(seed int64, rounds int) (sig, what string, stall time.Duration) 
 			}
 		}
 		if returned < n || len(table) != 0 {
-			return "inmem/wait/parked-on-expired-key", fmt.Sprintf("round %d: %d waiters started within -8..+1 us of the expiry of their records (one key each, nothing else touches the keys); 25 ms after the expiry %d of them have not returned and the waiter table still holds %v", r, n, n-returned, table), 0
+			return "inmem/wait/parked-on-expired-key", fmt.Sprintf("round %d: %d waiters started within -8..+1 us of the expiry of their records (one key each, nothing else touches the keys); a second after the expiry %d of them have not returned and the waiter table still holds %v", r, n, n-returned, table), 0
 		}
 	}
 	return "", "", 0
@@ -1134,7 +1141,7 @@ func TestCheck(t *testing.T) {
 		}
 		run.Finish(t)
 	})
-	run.Rule("scripted: every legal script to the depth bound over {start waiter (key1 cur/stale/unknown, key2 cur; <=3 alive), cancel waiter i, cancel+Put+newcomer without quiescence in between, start+Put without quiescence, Put k1/k2, PutMany k1 / k1+k2, CAS ok, CAS conflict, Delete k1/k2, Create, Put with an expiry, Put of an already expired record, clock +1 h (nobody touches the store)}; one waiter in three carries a context deadline 1000 virtual hours ahead, one in three a deadline 10 virtual minutes ahead (earlier than any record expiry: it gets the context's error when the clock moves); event ticklist: ListKeys runs half a millisecond after the first expiries of the hour; expiry edge (inmem, real clock): trains of 12 waiters, one key each, started within microseconds around the expiry of their records - 25 ms later all have returned and the waiter table is empty (this part runs as a second pass built without the race detector, whose slow-down hides such windows); waiters on records whose expiry is centuries away (9999-12-31, now+300 y, 2300, now+100 y) stay parked and are woken by an overwrite; Redis poll fault: the 1st/2nd/5th/9th poll of a parked waiter is answered with a server error - the waiter may report it or go on, but must not return nil, ErrNotExist or the context's error from 2 initial states, in a synctest bubble; after EVERY event quiescence, then each waiter must be exactly parked / nil / ErrNotExist / ctx error per model and the waiter table must equal the parked set; free-running: 3 writers + 6 waiters + cancellers on 2 keys per round, waiter returns checked by porcupine as read-like operations, final mutation must release all; burst rounds: 4-16 waiters on the current version start together with one mutation and must all return; Redis long-park: a waiter parked 3.2 s (6.5 s thorough) must notice the change within 1 s. distinct = distinct (event kind, parked-waiter multiset, number of present keys) classes observed at quiescent points + distinct free-running rounds")
+	run.Rule("scripted: every legal script to the depth bound over {start waiter (key1 cur/stale/unknown, key2 cur; <=3 alive), cancel waiter i, cancel+Put+newcomer without quiescence in between, start+Put without quiescence, Put k1/k2, PutMany k1 / k1+k2, CAS ok, CAS conflict, Delete k1/k2, Create, Put with an expiry, Put of an already expired record, clock +1 h (nobody touches the store)}; one waiter in three carries a context deadline 1000 virtual hours ahead, one in three a deadline 10 virtual minutes ahead (earlier than any record expiry: it gets the context's error when the clock moves); event ticklist: ListKeys runs half a millisecond after the first expiries of the hour; expiry edge (inmem, real clock): trains of 12 waiters, one key each, started within microseconds around the expiry of their records - 25 ms later (on suspicion: one second later) all have returned and the waiter table is empty (this part runs as a second pass built without the race detector, whose slow-down hides such windows); waiters on records whose expiry is centuries away (9999-12-31, now+300 y, 2300, now+100 y) stay parked and are woken by an overwrite; Redis poll fault: the 1st/2nd/5th/9th poll of a parked waiter is answered with a server error - the waiter may report it or go on, but must not return nil, ErrNotExist or the context's error from 2 initial states, in a synctest bubble; after EVERY event quiescence, then each waiter must be exactly parked / nil / ErrNotExist / ctx error per model and the waiter table must equal the parked set; free-running: 3 writers + 6 waiters + cancellers on 2 keys per round, waiter returns checked by porcupine as read-like operations, final mutation must release all; burst rounds: 4-16 waiters on the current version start together with one mutation and must all return; Redis long-park: a waiter parked 3.2 s (6.5 s thorough) must notice the change within 1 s. distinct = distinct (event kind, parked-waiter multiset, number of present keys) classes observed at quiescent points + distinct free-running rounds")
 	run.Assume("scripted part: virtual time that only moves at the explicit clock event")
 	run.Assume("free-running 'never misses' uses a 20 s watchdog against a healthy release time of microseconds (inmem) / <=100 ms (Redis polling)")
 
